@@ -2,6 +2,7 @@ import JominiModel.Model.Dom
 import JominiModel.Spec.Dom
 import JominiModel.Proofs.Dom
 import JominiModel.Proofs.DomGroups
+import JominiModel.Proofs.DomBridge
 /-
 C17 — DOM iterators, lengths and groupings agree with each other.
 
@@ -255,5 +256,77 @@ theorem C17_no_panic (t : Tape) (hw : wfTape t = true) :
     exact ⟨this.2.2.2.2, this.2.1⟩
 
 example : readArray sample 1 = .ok (some (8, 10)) ∧ readObject sample 1 = .ok (some (2, 10)) := by decide +kernel
+
+
+/-! ### bridges: the DOM walks duplicated in other slices' models agree with `Model/Dom.lean`
+
+(`Proofs/DomBridge.lean`; restated here so that they are audited with C17.)  `jTape` / `jTok` /
+`jField` / `jOut` translate the JSON model's tokens, items and outcomes (`panic ↦ panic`,
+`hang ↦ fuel`). -/
+
+open Jomini.DomBridge in
+/-- JSON model: `next_idx` agrees for every tape and every index up to one past the end. -/
+theorem C17_bridge_json_nextIdx : type_of% @json_nextIdx := @json_nextIdx
+open Jomini.DomBridge in
+theorem C17_bridge_json_nextIdxHeader : type_of% @json_nextIdxHeader := @json_nextIdxHeader
+open Jomini.DomBridge in
+theorem C17_bridge_json_nextIdxValues : type_of% @json_nextIdxValues := @json_nextIdxValues
+open Jomini.DomBridge in
+/-- JSON model: one step of `FieldsIter::next` agrees for every tape and state incl. the panic /
+finished outcome, except on the `debug_assert!` arm (JSON model = debug build, Dom = release). -/
+theorem C17_bridge_json_fieldsNext : type_of% @json_fieldsNext := @json_fieldsNext
+open Jomini.DomBridge in
+/-- JSON model: on every `WfObj` range `fieldsAll` = `Dom.fields` (items and final position) and
+`fieldsLen` = their number — so C17_fields_len / C17_groups / C17_remainder apply to it. -/
+theorem C17_bridge_json_fields : type_of% @json_fields := @json_fields
+open Jomini.DomBridge in
+/-- JSON model: whenever `Dom.values` succeeds (C17_values_len: always on a sound tape)
+`valuesAll` yields the same indices. -/
+theorem C17_bridge_json_values : type_of% @json_values := @json_values
+open Jomini.DomBridge in
+theorem C17_bridge_json_remainder : type_of% @json_remainder := @json_remainder
+open Jomini.DomBridge in
+/-- JSON model: `read_array` (plain, mixed loop, header view) gives the reader `Dom.readArray` gives. -/
+theorem C17_bridge_json_readArray : type_of% @json_readArray := @json_readArray
+
+open Jomini.DomBridge in
+/-- JSON model: `groupEntries` serializes, in order, exactly the groups `jsonGroups` lists … -/
+theorem C17_bridge_json_groupEntries : type_of% @json_groupEntries := @json_groupEntries
+open Jomini.DomBridge in
+/-- … and those are the Dom model's groups = the stable group-by-key of the fields. -/
+theorem C17_bridge_json_groups : type_of% @json_groups := @json_groups
+
+/-! text deserializer model (`Model/TextDe.lean`, tape path): `tTape` / `tTok` translate its
+tokens; `dOut` maps the Dom outcomes onto its single failure outcome (`panic`). -/
+
+open Jomini.DomBridge in
+/-- TextDe model: `next_idx` is identical for every tape, index and fuel. -/
+theorem C17_bridge_textde_nextIdx : type_of% @textde_nextIdx := @textde_nextIdx
+open Jomini.DomBridge in
+theorem C17_bridge_textde_nextIdxHeader : type_of% @textde_nextIdxHeader := @textde_nextIdxHeader
+open Jomini.DomBridge in
+theorem C17_bridge_textde_nextIdxValues : type_of% @textde_nextIdxValues := @textde_nextIdxValues
+open Jomini.DomBridge in
+/-- TextDe model: one step of `FieldsIter::next` agrees (item, finished, panic) for every tape
+and state, except on the `debug_assert!` arm. -/
+theorem C17_bridge_textde_fieldsNext : type_of% @textde_fieldsNext := @textde_fieldsNext
+open Jomini.DomBridge in
+theorem C17_bridge_textde_remainder : type_of% @textde_remainder := @textde_remainder
+open Jomini.DomBridge in
+/-- TextDe model: `read_array` (plain, mixed loop, header view) is identical for every tape. -/
+theorem C17_bridge_textde_readArray : type_of% @textde_readArray := @textde_readArray
+
+/-! writer model (`Model/Writer.lean`, the walk behind `writeTape`): `wTape` / `wTok`; `wOut` maps
+the Dom outcomes onto `WErr.panic` / `WErr.fuel`.  The writer's `FieldsIter` / `ValuesIter` steps
+are fused with the writing (`writeObjectCore`, `writeValues`) and use exactly these three
+functions for their index arithmetic. -/
+
+open Jomini.DomBridge in
+/-- writer model: `next_idx` is identical for every token list and index. -/
+theorem C17_bridge_writer_nextIdx : type_of% @writer_nextIdx := @writer_nextIdx
+open Jomini.DomBridge in
+theorem C17_bridge_writer_nextIdxHeader : type_of% @writer_nextIdxHeader := @writer_nextIdxHeader
+open Jomini.DomBridge in
+theorem C17_bridge_writer_nextIdxValues : type_of% @writer_nextIdxValues := @writer_nextIdxValues
 
 end Jomini.Props.C17
